@@ -21,7 +21,8 @@ MANIFEST = {
                 "writer can emit, never a malformed one), cuts the rest off, and the in-memory table equals an independent reference reader's; "
                 "(H2 encode/decode) what RecordDeps wrote is what a fresh Load + GetDeps returns, last record per output winning; (H3 sessions) after a "
                 "torn tail, load-append-reload stays consistent. BOUNDED (tail length, record count, path length) and for a record-size limit scaled "
-                "from 512 KiB to 31 bytes; recompaction is not decided.",
+                "from 512 KiB to 31 bytes. (Recompaction, modular) DepsLog::Recompact / IsDepsEntryLiveFor (real text, the writer side by contract): the record of every output that still has a build statement using deps is "
+                "rewritten exactly once with its mtime and dependencies - also a record with an empty list - every other entry is dropped, the log is replaced once and not at all after an error; the compaction threshold is not decided.",
         "design_ref": "DESIGN.md 5 C09",
     },
     "level_note": "trusted: cbmc 6.11 C++ front end, model std::string/std::vector, in-memory stdio model, shadow Node/State (regex conformance), "
@@ -462,6 +463,8 @@ def jobs(tier, mutant=None):
         js.append(Job("depslog.sessions.cut%d" % cut, _build_h2(2, 1, cut, mutant), "bounded", timeout=3400, mem_gb=16,
                       bound="session after a torn write: header + path record + %d arbitrary stray bytes; Load, then append 3 deps records, Close; file checked against the format reference" % cut,
                       functions=["DepsLog::Load", "DepsLog::RecordDeps", "DepsLog::RecordId", "DepsLog::OpenForWrite", "DepsLog::Close"], weight=25))
+    from props import depsrecompact
+    js.append(depsrecompact.job(mutant))
     return js
 
 
@@ -526,6 +529,8 @@ def _m(target, old, new):
 
 
 MUTANTS = [
+    ("recompact_drops_empty_lists", _m("Recompact", "    if (!deps) continue;  // If nodes_[old_id] is a leaf, it has no deps.", "    if (!deps || deps->node_count == 0) continue;")),
+    ("recompact_keeps_dead_entries", _m("IsDepsEntryLiveFor", "return node->in_edge() && !node->in_edge()->GetBinding(\"deps\").empty();", "return node->in_edge() != NULL;")),
     ("load_alignment_check_dropped", _m("Load", "if ((size % 4) != 0 || size < 12) {", "if (size < 12) {")),
     ("load_checksum_ignored", _m("Load", "if (id != expected_id || node->id() >= 0) {", "if (node->id() >= 0) {")),
     ("load_offset_misses_header", _m("Load", "offset += size + sizeof(size);", "offset += size;")),
@@ -577,9 +582,9 @@ def describe(tier):
             "State::GetNode is replaced by its contract (same node for equal paths, fresh node otherwise)",
             "Truncate(path, n) is replaced by its contract (file length becomes n)",
             "little-endian 32-bit words (the target ninja runs on here)",
-            "recompaction (Recompact, IsDepsEntryLiveFor) is outside the unit: asserted unreachable in the bounded runs",
+            "recompaction (Recompact, IsDepsEntryLiveFor) has its own modular run against the writer contracts; the Load/RecordDeps runs assert it is not requested for a handful of records",
         ],
-        "silent": ["recompaction keeps exactly the live entries", "the 1000-record / 3x compaction threshold", "concurrent writers"],
+        "silent": ["the 1000-record / 3x compaction threshold", "concurrent writers"],
         "explanation": "Contract harnesses on the sliced deps-log reader/writer over an in-memory file; postconditions from the property statement, oracle = "
                        "independent reference reader; bounded and scaled (see assumptions), not a proof.",
     }
